@@ -23,29 +23,30 @@ fn get_multiplicator(input: &str) -> IResult<&str, u64> {
 	Ok((input, mult))
 }
 
-fn get_duration_part(input: &str) -> IResult<&str, Duration> {
+fn get_duration_part(input: &str) -> IResult<&str, Option<Duration>> {
 	let (input, nb) = map_res(digit1, |s: &str| s.parse::<u64>())(input)?;
 	let (input, mult) = get_multiplicator(input)?;
-	Ok((input, Duration::from_secs(nb * mult)))
+	Ok((input, nb.checked_mul(mult).map(Duration::from_secs)))
 }
 
-fn get_duration(input: &str) -> IResult<&str, Duration> {
+fn get_duration(input: &str) -> IResult<&str, Option<Duration>> {
 	fold_many1(
 		get_duration_part,
-		|| Duration::new(0, 0),
-		|mut acc: Duration, item| {
-			acc += item;
-			acc
+		|| Some(Duration::new(0, 0)),
+		|acc: Option<Duration>, item| match (acc, item) {
+			(Some(acc), Some(item)) => acc.checked_add(item),
+			_ => None,
 		},
 	)(input)
 }
 
 pub fn parse_duration(input: &str) -> Result<Duration, Error> {
 	match get_duration(input) {
-		Ok((r, d)) => match r.len() {
+		Ok((r, Some(d))) => match r.len() {
 			0 => Ok(d),
 			_ => Err(format!("{input}: invalid duration").into()),
 		},
+		Ok((_, None)) => Err(format!("{input}: duration too large").into()),
 		Err(_) => Err(format!("{input}: invalid duration").into()),
 	}
 }
